@@ -393,6 +393,10 @@ namespace igris
 
         void erase(iterator first, iterator last)
         {
+            // an empty range is a no-op; std::move(last, end(), first) would
+            // move-assign every element from first on to itself
+            if (first == last)
+                return;
             size_t sz = last - first;
             // the tail is shifted down by assignment onto live elements,
             // then the sz elements left over at the end are destroyed
